@@ -146,6 +146,8 @@ def run_c07(prop, cfg, tier, seed):
         core.gen_cases(prof, seed, nq_rt if tier == "quick" else nt_rt, cf, variants=novar, id0=(k + 1) * 400_000 + 1)
         rt_header, lines = core.read_cases(cf)
         h1.run_stream(wd, rt_header, lines, (lambda r: ()), None, rt_sr, prof)
+    if rt_header:
+        h1.confirm_timeouts(rt_header, rt_sr)
     lst = findings.listed(prop)
     printed, kf = [], []
     nviol = 0
